@@ -64,6 +64,8 @@ func (ex *exec) startThread(i *interpreter, fn value, args []value) *thread {
 		t.name = f.String()
 	case *closure:
 		t.name = f.Fn.String()
+	case *nativeFn:
+		t.name = f.name
 	}
 	ex.threads = append(ex.threads, t)
 	ex.tg.Add(1)
